@@ -238,7 +238,7 @@ fn pair_bfs(ctx: &mut Ctx, layout: usize, mode: HandleControl) {
         }
     }
     let sys = Arc::new(PairSys { layout, mode, alphabet });
-    let (g, sr, errs) = explore_both(sys.clone(), false);
+    let (g, sr, errs) = explore_both(sys.clone(), false, 50_000);
     for e in errs {
         ctx.machinery(&format!("pair bfs {}: {}", LAYOUT_NAMES[layout], e));
     }
